@@ -170,6 +170,22 @@ func c03Gen(r *Rand, tier string, i int) Scenario {
 	}
 	sc.FinalNewline = r.Bool(0.8)
 	sc.Regex = c03Regexes[r.Intn(len(c03Regexes))]
+	if r.Bool(0.2) && n > 0 {
+		// bare lines (no running number in front) from a small pool in which one
+		// line is a proper substring of others, and a pattern derived from one of
+		// the lines: the whole line, anchored or not, a prefix, a suffix
+		pool := []string{"foo", "foo bar", "a foo b", "foobar", "xfoo", "", "bar", "ERROR", "error: foo", "42", "x", "foo", "4 2", "a.b", "aXb"}
+		sc.Lines = nil
+		for k := 0; k < n; k++ {
+			sc.Lines = append(sc.Lines, pool[r.Intn(len(pool))])
+		}
+		base := sc.Lines[r.Intn(len(sc.Lines))]
+		q := regexp.QuoteMeta(base)
+		sc.Regex = PickOf(r, "^"+q+"$", "^"+q+"$", "\\A"+q+"\\z", "^"+q, q+"$", q, "^(?:"+q+")$", "(?i)^"+q+"$", "^"+base+"$")
+		if sc.Regex == "" {
+			sc.Regex = "^$" // dgrep refuses to start without a pattern
+		}
+	}
 	sc.Invert = r.Bool(0.3)
 	lim := n + 2
 	pick := func() int {
@@ -189,6 +205,11 @@ func c03Gen(r *Rand, tier string, i int) Scenario {
 func c03Run(t *testing.T, s Scenario, src verifsim.DecisionSource, keep bool) *RunResult {
 	sc := s.(*C03Scenario)
 	res := &RunResult{Info: map[string]any{}}
+	if n := len(sc.Lines); n > 0 && sc.Lines[n-1] == "" && !sc.FinalNewline {
+		// an empty last line without newline is no line at all: the file would
+		// hold one line fewer than the model (generator artefact, not a finding)
+		sc.FinalNewline = true
+	}
 	sel, err := sc.selected()
 	if err != nil {
 		res.Aborted = "bad-regex"
